@@ -759,22 +759,27 @@ fn run(v: &Value) -> Result<String, String> {
             let rt = tokio::runtime::Builder::new_multi_thread().worker_threads(2).enable_all().build().unwrap();
             let alphabet = ["a", "b", "c"];
             let mut n = 0;
-            for mask in 0u8..8 {
-                let req: Vec<&str> = (0..3).filter(|b| mask & (1 << b) != 0).map(|b| alphabet[b]).collect();
+            // every subset, and each subset again with its tags repeated and reversed (a request is a SET of tags: duplicates and order do not matter)
+            for variant in 0u8..16 {
+                let mask = variant & 7;
+                let mut req: Vec<&str> = (0..3).filter(|b| mask & (1 << b) != 0).map(|b| alphabet[b]).collect();
+                if variant >= 8 { let mut dup = req.clone(); dup.reverse(); req.extend(dup); }
                 let expect: BTreeSet<String> = node_tags.iter().enumerate()
                     .filter(|(_, t)| req.iter().all(|r| t.contains(r))).map(|(i, _)| format!("n{i}")).collect();
                 let got: BTreeSet<String> = fleet.broadcast_json("/x", None, &req).keys().cloned().collect();
                 let filt: BTreeSet<String> = fleet.filter_nodes(&req).into_iter().map(|n| n.name).collect();
                 let agot: BTreeSet<String> = rt.block_on(afleet.broadcast_json("/x", None, &req)).keys().cloned().collect();
                 let afilt: BTreeSet<String> = rt.block_on(afleet.filter_nodes(&req)).into_iter().map(|n| n.name).collect();
-                for (what, set) in [("Fleet::broadcast_json", &got), ("Fleet::filter_nodes", &filt), ("AsyncFleet::broadcast_json", &agot), ("AsyncFleet::filter_nodes", &afilt)] {
+                let mr: BTreeSet<String> = fleet.map_reduce_json("/x", None, &req, |results| results.iter().map(|r| r.node.clone()).collect::<BTreeSet<String>>());
+                let amr: BTreeSet<String> = rt.block_on(afleet.map_reduce_json("/x", None, &req, |results| results.iter().map(|r| r.node.clone()).collect::<BTreeSet<String>>()));
+                for (what, set) in [("Fleet::broadcast_json", &got), ("Fleet::filter_nodes", &filt), ("AsyncFleet::broadcast_json", &agot), ("AsyncFleet::filter_nodes", &afilt), ("Fleet::map_reduce_json", &mr), ("AsyncFleet::map_reduce_json", &amr)] {
                     if *set != expect {
                         return Err(format!("{what} with tags {req:?} addressed {set:?}, expected exactly {expect:?}"));
                     }
                 }
                 n += 1;
             }
-            Ok(format!("{n} tag subsets x 4 entry points held"))
+            Ok(format!("{n} tag requests x 6 entry points held"))
         }
         "async_client_timeout_then_call" => {
             // C05 scenario for the async client: a call with a per-call timeout and a large payload to a peer
@@ -2436,7 +2441,11 @@ fn run(v: &Value) -> Result<String, String> {
                             if ctx.is_cancelled() { oc.fetch_add(1, Ordering::SeqCst); }
                             Ok(json!("left"))
                         });
+                    let early_seen: Arc<Mutex<Vec<(u64, bool)>>> = Arc::new(Mutex::new(Vec::new()));
+                    let (es, r4) = (early_seen.clone(), registry.clone());
                     let server = WebSocketServer::new(router)
+                        // a disconnect callback registered BEFORE the registry is attached runs before the registry's own removal: it still finds the peer and its alias
+                        .on_peer_disconnect(move |id| { es.lock().unwrap().push((id.0, r4.get(id).is_some() && r4.get_by(format!("session-{}", id.0).as_str()).is_some())); })
                         .with_peer_registry(registry.clone())
                         .on_peer_connect(move |peer| {
                             let id = peer.peer_id().0;
@@ -2531,6 +2540,9 @@ fn run(v: &Value) -> Result<String, String> {
                         let ds = disconnects.lock().unwrap().clone();
                         let cs = connects.lock().unwrap().clone();
                         if ds.len() != 1 { return Err(format!("{cause}: the disconnect callbacks ran {} times for one connection", ds.len())); }
+                        let es = early_seen.lock().unwrap().clone();
+                        if es.len() != 1 { return Err(format!("{cause}: the disconnect callback registered before the registry ran {} times", es.len())); }
+                        if cause != "connect_callback_panic" && !es[0].1 { return Err(format!("{cause}: a disconnect callback registered before with_peer_registry found the peer or its alias already gone: the registry's removal no longer runs in registration order")); }
                         if cs.len() != 1 || cs[0] != ds[0].0 { return Err(format!("{cause}: connect saw peers {cs:?}, disconnect saw {:?}", ds.iter().map(|d| d.0).collect::<Vec<_>>())); }
                         if ds[0].1 || ds[0].2 || registry.get(PeerId(ds[0].0)).is_some() || registry.get_by(format!("session-{}", ds[0].0).as_str()).is_some() || !registry.is_empty() {
                             return Err(format!("{cause}: after the disconnect callbacks the peer or its alias is still in the registry (in hook: peer {}, alias {}; now: {} peers)", ds[0].1, ds[0].2, registry.len()));
@@ -2600,6 +2612,9 @@ fn run(v: &Value) -> Result<String, String> {
                     // keep another worker polling the time driver while one worker is pinned by the synchronous handler, so that the
                     // 100 ms drain deadline fires on time (otherwise tokio may deliver it only when the pinned worker is free again)
                     let ticker = tokio::spawn(async { let mut iv = tokio::time::interval(Duration::from_millis(5)); loop { iv.tick().await; } });
+                    // ... and keep injecting no-op tasks from a plain thread: a worker woken for one of them services the timer wheel
+                    let stop_inject = Arc::new(std::sync::atomic::AtomicBool::new(false));
+                    let injector = { let st = stop_inject.clone(); let h = tokio::runtime::Handle::current(); std::thread::spawn(move || { while !st.load(Ordering::SeqCst) { h.spawn(async {}); std::thread::sleep(Duration::from_millis(2)); } }) };
                     let serving = tokio::spawn(async move { server.serve_listener_with_graceful_drain(listener, "/repe", async move { let _ = stop_rx.await; }, Duration::from_millis(100)).await });
                     let (mut ws, _) = repe::tokio_tungstenite::connect_async(format!("ws://{addr}/repe")).await.map_err(|e| e.to_string())?;
                     let m = repe::Message::builder().id(1).query_str("/slow").query_format(repe::QueryFormat::JsonPointer).body_json(&json!({})).unwrap().build();
@@ -2610,6 +2625,8 @@ fn run(v: &Value) -> Result<String, String> {
                     match tokio::time::timeout(Duration::from_secs(8), serving).await { Ok(_) => {}, Err(_) => return Err("drain straggler: the accept loop did not return within 8 s".into()) }
                     let n = disconnects.load(Ordering::SeqCst);
                     ticker.abort();
+                    stop_inject.store(true, Ordering::SeqCst);
+                    let _ = injector.join();
                     if n != 1 || !registry.is_empty() { return Err(format!("drain straggler: the graceful-drain call returned after aborting a straggler, but its disconnect callbacks had run {n} time(s) and {} peer(s) were still registered at that moment", registry.len())); }
                     drop(ws);
                     Ok(())
